@@ -34,6 +34,29 @@ def r08_1(ctx):
         n += 1
         want = "format_finite" if f.name in FLT_W else "format"
         crate = "ryu::" if f.name in FLT_W else "itoa::"
+        # forwarding to a private generic helper of the file that formats its own parameter (`write_integer::<W, i8>(writer,
+        # value)`): the helper is instantiated with this method's type, is handed this method's value, formats exactly that
+        # parameter at the generic type and writes the text
+        hs = [(b, t) for b, t in f.calls() if t["callee"] in prog.fns and prog.fns[t["callee"]].file == f.file and not prog.fns[t["callee"]].impl
+              and any(tt["callee"].rsplit("::", 1)[-1] == want and crate in tt["callee"] for bb, tt in prog.fns[t["callee"]].calls())]
+        if len(hs) == 1 and not any(tt["callee"].rsplit("::", 1)[-1] == want and crate in tt["callee"] for bb, tt in f.calls()):
+            hb, ht = hs[0]
+            h = prog.fns[ht["callee"]]
+            ty0 = f.name.split("_", 1)[1]
+            hfm = [(bb, tt) for bb, tt in h.calls() if tt["callee"].rsplit("::", 1)[-1] == want and crate in tt["callee"]]
+            hwa = [(bb, tt) for bb, tt in h.calls() if callee_is(tt, "write_all")]
+            okh = len(hfm) == 1 and len(hwa) == 1 and not (h.reachable_from(0, avoid={hfm[0][0]}) & set(h.return_blocks))
+            if okh:
+                vl = op_local(hfm[0][1]["args"][1])
+                pidx = h.src(vl)[1] if vl is not None and h.src(vl)[0] == "param" else None
+                # the value handed to the helper at that position is this method's own value parameter, uncast
+                al = op_local(ht["args"][pidx - 1]) if pidx and pidx - 1 < len(ht["args"]) else None
+                okh = al is not None and f.src(al)[0] == "param" and f.locals[f.src(al)[1]]["ty"] == ty0 and ty0 in (ht.get("rgargs") or ht.get("gargs") or [])
+                sl, leaves = backward_slice(h, [op_local(hwa[0][1]["args"][1])]) if op_local(hwa[0][1]["args"][1]) is not None else (set(), [])
+                okh = okh and hfm[0][1]["dest"][0] in sl
+                okh = okh and not (f.reachable_from(0, avoid={hb}) & set(f.return_blocks))
+            ctx.ob("R08.1", f"{short(f.id)}", okh, f.loc(), f"{f.name}: forwards its value to {h.name}::<{ty0}>, which writes {crate}Buffer::{want}(value)" if okh else f"{f.name} does not write exactly {crate}Buffer::{want}(value) of its own width")
+            continue
         fm = [(b, t) for b, t in f.calls() if t["callee"].rsplit("::", 1)[-1] == want and crate in t["callee"]]
         wa = [(b, t) for b, t in f.calls() if callee_is(t, "write_all")]
         ok = len(fm) == 1 and len(wa) == 1
